@@ -52,6 +52,10 @@ var selBuilders = []selBuilder{
 		return ObjN(N, ObjN("sub", ObjN("deep", l())), "plain1", ObjN("sub", l()))
 	})},
 	{"subdoc-array", "find", selFind(func(g *Gen, N string, l func() *Node) *Node { return ObjN(N, ObjN("sub", ArrN(l(), ObjN("k", l())))) })},
+	{"dotted-key", "find", selFind(func(g *Gen, N string, l func() *Node) *Node {
+		// dot notation: the same path spelled as ONE key (judged only when unambiguous, see C14)
+		return ObjN("outer."+N, l(), "outer.plain2", l(), N+".sub", ObjN("$in", ArrN(l())))
+	})},
 	{"name-deeper", "find", selFind(func(g *Gen, N string, l func() *Node) *Node {
 		return ObjN("outer", ObjN(N, l(), "plain2", l()), "plain1", l())
 	})},
